@@ -168,7 +168,7 @@ def main():
     modname, fnname, decode = TARGETS[target]
     mod = importlib.import_module(modname)
     fn = getattr(mod, fnname)
-    known = {e["sig"] for e in core.load_known(mod.ID) if e.get("status") == "open"}
+    known = [e for e in core.load_known(mod.ID) if e.get("status") == "open"]
     stats = {"executions": 0, "distinct_nontrivial": 0, "labels": {}, "samples": [], "known_hits": 0}
     seen = set()
 
@@ -185,7 +185,7 @@ def main():
             with core.deadline(20):
                 info = fn(case)
         except core.Failure as f:
-            if f"fuzz:{f.sig}" in known:
+            if any(core.finding_matches(e, f"fuzz:{f.sig}") for e in known):
                 stats["known_hits"] += 1
                 return
             with open(os.path.join(work, "failure.json"), "w") as fh:
